@@ -249,7 +249,25 @@ def usp_of_norm(it, n):
     return 0 if n is None else it.call_method(n, "get_usp", [])
 
 
-def check_settings_object(ctx, obj, hyps, label, fq, nonlocal_from=0):
+L1_USP = {"se_grad": K.kernel_usp(K.VI_KERNELS["se_ap"]) - 1, "se_rvec": K.kernel_usp(K.VI_KERNELS["se"]) - 1, -1: 4}
+RM_USP = {"one": 0, "expnt": 2}   # multiplying the density by the exponent (power 2)
+
+
+def documented_usps(rho_mult, jspecs=(), l0=(), l1=(), dots=()):
+    """Uniform-scaling powers derived from the documented kernels (specs/nldf_kernels.py), in feature order j, i(l=0), i(l=1 dots)."""
+    out = []
+    for s in jspecs:
+        out.append(RM_USP[rho_mult] + (K.kernel_usp(K.VJ_KERNELS[s]) if s in K.VJ_KERNELS else 0))
+    for s in l0:
+        out.append(RM_USP[rho_mult] + K.kernel_usp(K.VI_KERNELS[s]))
+    for j, k in dots:
+        uj = L1_USP[-1] if j == -1 else L1_USP[l1[j]]
+        uk = L1_USP[-1] if k == -1 else L1_USP[l1[k]]
+        out.append(RM_USP[rho_mult] + uj + uk)
+    return out
+
+
+def check_settings_object(ctx, obj, hyps, label, fq, nonlocal_from=0, expected=None):
     """usp(feature) + usp(normaliser) = 0 and ueg_vector(l^3 rho) = l^usp ueg_vector(rho), on every path."""
     it = ctx.interp
     it.hyps = list(hyps)
@@ -258,6 +276,13 @@ def check_settings_object(ctx, obj, hyps, label, fq, nonlocal_from=0):
         usps = it.call_method(obj, "get_feat_usps", [])
         norms = it.call_method(obj, "get_reasonable_normalizer", [])
         return list(usps), [usp_of_norm(it, n) for n in norms]
+    if expected is not None:
+        try:
+            declared = list(it.call_method(obj, "get_feat_usps", []))
+            ctx.holds("%s.declared-usps = documented powers" % label, len(declared) == len(expected) and all(tm.lift(a) is tm.lift(b) for a, b in zip(declared, expected)),
+                      "declared %s vs documented %s" % (declared, expected), fq, witness={"declared": [str(x) for x in declared], "documented": [str(x) for x in expected]})
+        except PyRaise as e:
+            ctx.holds("%s.declared-usps = documented powers" % label, False, "get_feat_usps raised %s" % e, fq)
     n = 0
     for o, v, pc, _ in all_paths(it, thunk):
         if o == "raise":
@@ -321,11 +346,11 @@ def unit_nldf_single(level, rho_mult):
         it.hyps = list(hyps)
         for s in l0s:
             obj = it.call(m.ns["NLDFSettingsVI"], [level, th, rho_mult, [s], [], []], {})
-            check_settings_object(ctx, obj, hyps, "VI[%s]" % s, fqi)
+            check_settings_object(ctx, obj, hyps, "VI[%s]" % s, fqi, expected=documented_usps(rho_mult, l0=[s]))
         for j in range(-1, len(l1s)):
             for k in range(-1, len(l1s)):
                 obj = it.call(m.ns["NLDFSettingsVI"], [level, th, rho_mult, [], l1s, [(j, k)]], {})
-                check_settings_object(ctx, obj, hyps, "VI[dot %d,%d]" % (j, k), fqi)
+                check_settings_object(ctx, obj, hyps, "VI[dot %d,%d]" % (j, k), fqi, expected=documented_usps(rho_mult, l1=l1s, dots=[(j, k)]))
         fqj = [SMOD + ":NLDFSettingsVJ." + f for f in ("get_feat_usps", "get_reasonable_normalizer", "ueg_vector")]
         for s in js:
             h2 = list(hyps)
@@ -336,14 +361,21 @@ def unit_nldf_single(level, rho_mult):
                 p = p + [e]
             it.hyps = list(h2)
             obj = it.call(m.ns["NLDFSettingsVJ"], [level, th, rho_mult, [s], [p]], {})
-            check_settings_object(ctx, obj, h2, "VJ[%s]" % s, fqj)
+            check_settings_object(ctx, obj, h2, "VJ[%s]" % s, fqj, expected=documented_usps(rho_mult, jspecs=[s]))
         h2 = list(hyps)
         p = theta("f0", level, h2)
         it.hyps = list(h2)
         obj = it.call(m.ns["NLDFSettingsVK"], [level, th, rho_mult, [p], "exponential"], {})
-        check_settings_object(ctx, obj, h2, "VK", [SMOD + ":NLDFSettingsVK." + f for f in ("get_feat_usps", "get_reasonable_normalizer", "ueg_vector")])
-        obj = it.call(m.ns["NLDFSettingsVIJ"], [level, th, rho_mult, ["se_ap"], ["se_grad"], [(0, 0)], ["se"], [p]], {})
-        check_settings_object(ctx, obj, h2, "VIJ", [SMOD + ":NLDFSettingsVIJ." + f for f in ("get_feat_usps", "get_reasonable_normalizer", "ueg_vector")])
+        check_settings_object(ctx, obj, h2, "VK", [SMOD + ":NLDFSettingsVK." + f for f in ("get_feat_usps", "get_reasonable_normalizer", "ueg_vector")],
+                              expected=documented_usps(rho_mult, jspecs=["se"]))
+        fqij = [SMOD + ":NLDFSettingsVIJ." + f for f in ("get_feat_usps", "get_reasonable_normalizer", "ueg_vector")]
+        for s in l0s:
+            obj = it.call(m.ns["NLDFSettingsVIJ"], [level, th, rho_mult, [s], [], [], ["se"], [p]], {})
+            check_settings_object(ctx, obj, h2, "VIJ[%s]" % s, fqij, expected=documented_usps(rho_mult, jspecs=["se"], l0=[s]))
+        for j in range(-1, len(l1s)):
+            for k in range(-1, len(l1s)):
+                obj = it.call(m.ns["NLDFSettingsVIJ"], [level, th, rho_mult, [], l1s, [(j, k)], ["se_ar2"], [p]], {})
+                check_settings_object(ctx, obj, h2, "VIJ[dot %d,%d]" % (j, k), fqij, expected=documented_usps(rho_mult, jspecs=["se_ar2"], l1=l1s, dots=[(j, k)]))
     return run
 
 
